@@ -81,6 +81,8 @@ func runC05(r *oblig.Report) {
 	e5path.ExclusionPerOperand(c.P, r, "C05.11", fs)
 	r.Rule("C05.12", "instance-table", "the weights of a resolved cycle root are stored only when they are not empty; the empty case is an error (no terminal type)", 1)
 	e5path.RootReachesSomething(c.P, r, "C05.12", fs)
+	r.Rule("C05.13", "path-enumeration", "an edge is filed among the dependants of a cycle root only where a tuple on the cycle it joins was established", 2)
+	e5path.DependantClassified(c.P, r, "C05.13", fs)
 	r.Rule("C05.9", "path-enumeration", "the placeholder weight of an unresolved cycle is given only after the cycle classifier's verdict or a tuple kind (TTU, direct) of the edge itself was established on the path", 1)
 	e5path.PlaceholderNeedsTuple(c.P, r, "C05.9", fs)
 	r.Rule("C05.5", "path-enumeration", "a node without outgoing edges that is not a terminal type ends the weight calculation in an error", 3)
@@ -118,6 +120,10 @@ func runC06(r *oblig.Report) {
 	e5path.CollectingLoopsCompleteIn(c.P, r, "R1.6c", "graph", fs)
 	r.Rule("C05.10", "instance-table", "operand order: an intersection is computed over operands and a running set that became empty is never refilled from a later operand", 1)
 	e5path.IntersectionPerOperand(c.P, r, "C05.10", fs)
+	r.Rule("C05.11", "instance-table", "operand order: the subtracted side of an exclusion is its last operand, not its last edge", 1)
+	e5path.ExclusionPerOperand(c.P, r, "C05.11", fs)
+	r.Rule("C05.13", "path-enumeration", "operand order: an edge is filed among the dependants of a cycle root only where a tuple on the cycle it joins was established", 2)
+	e5path.DependantClassified(c.P, r, "C05.13", fs)
 }
 
 func runC11(r *oblig.Report) {
